@@ -246,19 +246,35 @@ FIXED = [
     {"world": "local", "topology": "separate", "nprior": 1, "readers": [[read_spec(api="iter_records", fault=3), read_spec(api="scan")]], "writers": [{"op": "failing"}, {"op": "append"}]},
     {"world": "local", "topology": "separate", "nprior": 2, "readers": [[read_spec(api="scan"), read_spec(api="row_count")]], "writers": [{"op": "replace", "which": 0}, {"op": "append"}]},
 ]
+# two readers on ONE shared handle (threads sharing a Table) + a writer: anything a read leaves on the handle must not leak into the other reader
+RICH = [
+    {"world": "local", "topology": "shared", "nprior": 1, "readers": [[read_spec(api="scan")], [read_spec(api="scan")]], "writers": [{"op": "append"}]},
+    {"world": "local", "topology": "shared", "nprior": 2, "readers": [[read_spec(api="batches1")], [read_spec(api="row_count"), read_spec(api="iter_records")]], "writers": [{"op": "append"}]},
+]
 
 
 def run_enum(task):
+    import itertools
+
     res = Result()
     sc = task["sc"]
     n = len(sc["readers"]) + len(sc["writers"])
     o = run_case({"kind": "sched", "sc": sc, "schedule": {"order": list(range(n))}, "seed": 1})
     D = o.get("decisions", 60)
     scheds = [{"order": list(range(n))}, {"order": list(reversed(range(n)))}]
-    for order in (list(range(n)), list(reversed(range(n)))):
-        for i in range(1, int(D * 1.15) + 2):
-            for j in range(n):
-                scheds.append({"order": order, "preempt": [[i, j]]})
+    if task.get("rich"):
+        # every priority order x every starting actor x one further preemption: 'A starts, is parked at i, B runs to completion, then C, then A'
+        for order in itertools.permutations(range(n)):
+            for first in range(n):
+                for i in range(2, int(D * 1.15) + 2):
+                    for j in range(n):
+                        if j != first:
+                            scheds.append({"order": list(order), "preempt": [[1, first], [i, j]]})
+    else:
+        for order in (list(range(n)), list(reversed(range(n)))):
+            for i in range(1, int(D * 1.15) + 2):
+                for j in range(n):
+                    scheds.append({"order": order, "preempt": [[i, j]]})
     for idx, schd in enumerate(scheds):
         if idx % task["nshard"] != task["shard"]:
             continue
@@ -299,6 +315,9 @@ def plan(tier, seed):
     for sc in FIXED:
         for s in range(ns):
             tasks.append({"kind": "enum", "sc": sc, "shard": s, "nshard": ns})
+    for sc in RICH[: 1 if tier == "quick" else 2]:
+        for s in range(6):
+            tasks.append({"kind": "enum", "sc": sc, "shard": s, "nshard": 6, "rich": True})
     n = 120 if tier == "quick" else 3000
     for s in range(4 if tier == "quick" else 16):
         tasks.append({"kind": "pct", "n": n, "seed": seed * 1000 + s, "tier": tier})
